@@ -170,10 +170,11 @@ Example C05_ex_accept :
 Proof. repeat split; vm_compute; reflexivity. Qed.
 
 Example C05_ex_model :
-  map fst (plan ex_dcf ex_rackf ex_g ex_ks ex_enabled ex_connected (fun _ => 0%N) ex_pol (ex_rq false)
-             (fun _ _ => 1%nat) (fun _ l => rev l)) = [7; 1; 4; 5; 2; 3]%N /\
-  map fst (fallback ex_dcf ex_rackf ex_g ex_ks ex_enabled ex_connected (fun _ => 0%N) ex_pol (ex_rq true)
-             (fun _ _ => 1%nat) (fun _ l => rev l)) = [1; 7; 4; 5; 2; 3]%N /\
+  let cho := fun (_ len : nat) => Nat.pred len in
+  let shuf := fun (_ : nat) (l : list N) => rev l in
+  map fst (plan ex_dcf ex_rackf ex_g ex_ks ex_enabled ex_connected (fun _ => 0%N) ex_pol (ex_rq false) cho shuf) = [1; 7; 5; 4; 2; 3]%N /\
+  map fst (plan ex_dcf ex_rackf ex_g ex_ks ex_enabled ex_connected (fun _ => 0%N) ex_pol (ex_rq true) cho shuf) = [1; 7; 4; 5; 2; 3]%N /\
+  pick ex_dcf ex_rackf ex_g ex_ks ex_enabled ex_connected (fun _ => 0%N) ex_pol (ex_rq false) cho = Some (1%N, Some 0%N) /\
   pick_matches ex_dcf ex_rackf ex_g ex_ks ex_enabled ex_connected ex_pol (ex_rq true) (Some 1%N) = true /\
   pick_matches ex_dcf ex_rackf ex_g ex_ks ex_enabled ex_connected ex_pol (ex_rq true) (Some 7%N) = false.
 Proof. repeat split; vm_compute; reflexivity. Qed.
